@@ -326,7 +326,7 @@ func Decode(input NodeEdgeChildren, outputStruct any) error {
 		}
 		if err != nil || index < 0 {
 			g.KeyNotIndex = p.Key
-		} else if index > g.KeyMaxInt && p.Tombstone%2 == 0 {
+		} else if index > g.KeyMaxInt && p.Tombstone%2 != 1 {
 			// Note: Do not set `KeyMaxInt` if Tombstone is set. We don't
 			// need to expand the slice in this case.
 			g.KeyMaxInt = index
@@ -345,7 +345,7 @@ func Decode(input NodeEdgeChildren, outputStruct any) error {
 		}
 		if err != nil || index < 0 {
 			g.KeyNotIndex = p.Key
-		} else if index > g.KeyMaxInt && p.Tombstone%2 == 0 {
+		} else if index > g.KeyMaxInt && p.Tombstone%2 != 1 {
 			g.KeyMaxInt = index
 		}
 		g.Points = append(g.Points, p)
